@@ -123,6 +123,17 @@ def replay(t):
             elif op == "report_last" and lastv is not None:
                 lastv.report()
                 issues = issues_of(lastv.errors)
+            elif op == "clone_validate":
+                # a copy of the document, edited so that it differs from the original, validated through Document.validate()
+                # and through a new Validation object: two validations of one unchanged object
+                c = doc.clone()
+                c.sections[0].type = None
+                odml.Property(name="only-in-the-copy", parent=c.sections[0], values=[1, 2], val_cardinality=(3, None))
+                with C.quiet():
+                    issues = issues_of(c.validate().errors)
+                    again = issues_of(V.Validation(c).errors)
+                rerun_same = sorted(map(json.dumps, again)) == sorted(map(json.dumps, issues))
+                issues = []          # (not compared with the validations of the original)
             elif op == "new_custom":
                 # both documented ways of making a private validation
                 # ... on the document, or prepared on an object that is still empty (no Sections / children / values)
